@@ -231,6 +231,14 @@ OptionsOK(d, k) == IF k = Len(d) THEN TRUE
 RECURSIVE OptionCount(_, _)
 OptionCount(d, k) == IF k >= Len(d) THEN 0 ELSE 1 + OptionCount(d, k + 4 + d[k + 3] * 256 + d[k + 4])
 
+\* A name may be written through a pointer into the 12-byte header (the parser accepts it): such a name changes when
+\* a header field is set, and nobody can prevent that.  For packets that contain a pointer below offset 12 the header
+\* setters are therefore judged on the header and the record counts only (the state predicate C08 still applies in
+\* full: whatever the object remembers about the question must follow the bytes).
+PointsIntoHeader(p) == \E k \in 13..(Len(p) - 1) : p[k] >= 192 /\ (p[k] - 192) * 256 + p[k + 1] < 12
+HdrOnly(m) == [id |-> m.id, word |-> m.word, nq |-> Len(m.q), nan |-> Len(m.an), nns |-> Len(m.ns), nar |-> Len(m.ar)]
+SameAsFar(b, want, pre) == IF PointsIntoHeader(pre) THEN HdrOnly(b) = HdrOnly(want) ELSE b = want
+
 \* strict: the step is also required to succeed when no reason for failure applies
 EffectWhy(e, strict) ==
   LET a == CMsgX(e.pre)  b == CMsgX(e.post)  o == e.o  w == a.word
@@ -238,11 +246,11 @@ EffectWhy(e, strict) ==
       mayFail == e.mc0 /\ ~policy          \* must re-parse first, and the parser rejects the bytes
       failOK == IF b = a THEN "" ELSE "a failed " \o o.op \o " changed the message"
   IN
-  CASE o.op = "set_tid" -> IF b = [a EXCEPT !.id = <<o.v \div 256, o.v % 256>>] THEN "" ELSE "set_tid: effect"
-    [] o.op = "set_flags" -> IF b = [a EXCEPT !.word = SetFlagsA(w, o.lo)] THEN "" ELSE "set_flags: effect"
-    [] o.op = "set_rcode" -> IF b = [a EXCEPT !.word = SetRcodeA(w, o.v)] THEN "" ELSE "set_rcode: effect"
-    [] o.op = "set_opcode" -> IF b = [a EXCEPT !.word = SetOpcodeA(w, o.v)] THEN "" ELSE "set_opcode: effect"
-    [] o.op = "set_response" -> IF b = [a EXCEPT !.word = SetQRA(w, o.v)] THEN "" ELSE "set_response: effect"
+  CASE o.op = "set_tid" -> IF SameAsFar(b, [a EXCEPT !.id = <<o.v \div 256, o.v % 256>>], e.pre) THEN "" ELSE "set_tid: effect"
+    [] o.op = "set_flags" -> IF SameAsFar(b, [a EXCEPT !.word = SetFlagsA(w, o.lo)], e.pre) THEN "" ELSE "set_flags: effect"
+    [] o.op = "set_rcode" -> IF SameAsFar(b, [a EXCEPT !.word = SetRcodeA(w, o.v)], e.pre) THEN "" ELSE "set_rcode: effect"
+    [] o.op = "set_opcode" -> IF SameAsFar(b, [a EXCEPT !.word = SetOpcodeA(w, o.v)], e.pre) THEN "" ELSE "set_opcode: effect"
+    [] o.op = "set_response" -> IF SameAsFar(b, [a EXCEPT !.word = SetQRA(w, o.v)], e.pre) THEN "" ELSE "set_response: effect"
     [] o.op = "recompute" ->
          IF b # a THEN "recompute changed the message"
          ELSE IF e.res = "ok" /\ ~e.view.mc /\ ~PointerFreeT(e.post) THEN "recompute declared the bytes pointer-free without decompressing"
@@ -358,6 +366,10 @@ EdnsReadWhy(e) ==
 StepWhy(e, strict) ==
   IF e.res = "panic" THEN "panic in " \o e.o.op
   ELSE IF ~Structural(e.pre) THEN "-"
+  \* setting a header field of a packet whose names reach into the header can make those names anything: the
+  \* caller's doing, as far as the bytes go (what the object remembers is still judged when the bytes stay decodable)
+  ELSE IF e.o.op \in {"set_tid", "set_flags", "set_rcode", "set_opcode", "set_response"} /\ PointsIntoHeader(e.pre)
+          /\ Len(e.post) >= 12 /\ ~Structural(e.post) THEN ""
   ELSE LET s == StateWhy(e.view, e.post, e.reparse)
            s1 == IF s = "" THEN "" ELSE "after " \o e.o.op \o ": " \o s IN
        \* bytes that cannot be decoded any more: nothing else can be said
